@@ -36,7 +36,7 @@ func TestExploreSeq(t *testing.T) {
 	}
 	w := newWorld(t)
 	for _, in := range rp.Inputs {
-		t0 := w.newTx()
+		t0 := w.newTx(in.Token)
 		po, p, _ := t0.runPre(in.Pre)
 		fmt.Println("pre:", p)
 		for i, o := range po {
@@ -44,7 +44,7 @@ func TestExploreSeq(t *testing.T) {
 		}
 		fmt.Println("commit0", t0.sdb.Commit())
 		a := w.dump(t0.ctx)
-		t1 := w.newTx()
+		t1 := w.newTx(in.Token)
 		t1.runPre(in.Pre)
 		o := t1.call(in.PC, in.Kind, in.Value, in.Gas, in.Data)
 		fmt.Printf("final: reached=%v class=%s method=%s note=%s\n", o.Reached, o.Class, o.Method, o.Note)
